@@ -34,6 +34,8 @@ def objects(tier):
     # more than 255 memo entries in the model pickle (LONG_BINPUT at torch's default protocol 2)
     out["many-tensors"] = lambda: {f"w{i}": torch.full((2,), float(i)) for i in range(60)}
     out["deep-sequential"] = lambda: nn.Sequential(*[nn.Linear(2, 2) for _ in range(6)])
+    # one storage above 1 MiB next to small ones
+    out["big-storage"] = lambda: {"small": torch.ones(2), "big": torch.zeros(600, 600), "tail": torch.ones(3, dtype=torch.int64)}
     if tier == "never":
         keep = ["linear", "sequential", "state_dict", "nested", "shared-storage", "tensor-float32-2x3", "tensor-bfloat16-scalar",
                 "tensor-int64-0", "tensor-bool-2x3", "tensor-float16-0"]
@@ -50,6 +52,8 @@ def payloads(tier):
     ps = [(f"text[{i}]", f"import vp_sink; vp_sink.hit({t!r})", (t,)) for i, t in enumerate(texts)]
     ps += [("digits-only", "123", None), ("multi-line", "import vp_sink\nfor _i in range(1):\n    vp_sink.hit('ml', 2)\n", ("ml", 2)),
            ("plain", "import vp_sink; vp_sink.hit()", ()),
+           # payload texts that also occur as strings of the model pickle (storage key, device)
+           ("equals-model-string-0", "0", None), ("equals-model-string-cpu", "cpu = 1", None),
            ("blank-lines-in-literal", BLANK_PAYLOAD, ("first line\n    \n\t\nlast line", "  a\n    \n  b"))]
     return ps
 
@@ -244,6 +248,26 @@ def _case(item):
         finally:
             if os.path.exists(dst2):
                 os.remove(dst2)
+        # the same payload injected again into the *injected* file: one more call, on top of the first
+        dst3 = os.path.join(d, "out3.pt")
+        if os.path.exists(dst3):
+            os.remove(dst3)
+        try:
+            ref2 = fk.Pickled.load(members1[pkl_name])
+            ref2.insert_python_exec(payload)
+            with redirect_stdout(io.StringIO()), redirect_stderr(io.StringIO()):
+                PyTorchModelWrapper(dst).inject_payload(payload, dst3, injection="insertion", overwrite=False)
+            with zipfile.ZipFile(dst3) as z:
+                chained = z.read(pkl_name)
+            st.inc("chained_injections")
+            if chained != ref2.dumps():
+                out.violate(PROP, "C16|chained-injection-differs", f"{tag}: injecting the payload again into the injected file does not give "
+                            f"insert_python_exec applied to that file's data.pkl (exec occurrences {chained.count(b'exec')} vs {ref2.dumps().count(b'exec')})", rp, 1)
+        except Exception as e:  # noqa: BLE001
+            out.violate(PROP, f"C16|chained-injection-raises|{type(e).__name__}", f"{tag}: injection into the injected file raised {type(e).__name__}: {e}", rp, 1)
+        finally:
+            if os.path.exists(dst3):
+                os.remove(dst3)
     diff = same_model(obj, loaded)
     if diff:
         out.violate(PROP, f"C16|model-differs|{oname.split('-')[0]}", f"{tag}: loaded object differs from the original: {diff}", rp, 1)
